@@ -388,9 +388,10 @@ def run(ctx: Ctx) -> None:
                 break
     memo_after = memo_objects()
     grown = sorted(k for k in memo_after if memo_after[k] != memo_before.get(k, 0))
+    # informational only: a memo of a pure function (the library has one: rules_inline/text.py `_terminator_char_regex`) is not hidden
+    # state in the sense of the property; what decides is the first-vs-later render comparison above
     ctx.cov["process_level_memos"] = memo_after
-    if grown:
-        ctx.mismatch("process-level memo tables fill up during parsing (state the model's instance does not have)", {"memos": grown})
+    ctx.cov["process_level_memos_grown"] = grown
     # (iii) module-level state untouched
     after = module_snapshot()
     changed = sorted(k for k in set(before) | set(after) if before.get(k) != after.get(k))
